@@ -2848,6 +2848,7 @@ class State:
                 pending_contributions[i] -= ante
 
         previous_contribution = 0
+        previous_player_indices = list[int]()
         pots = list[Pot]()
 
         for contribution in sorted(set(contributions)):
@@ -2863,6 +2864,11 @@ class State:
                         and self.statuses[i]
                 ):
                     player_indices.append(i)
+
+            if not player_indices:
+                player_indices = previous_player_indices
+
+            previous_player_indices = player_indices
 
             while pots and pots[-1].player_indices == tuple(player_indices):
                 amount += pots.pop().amount
